@@ -67,7 +67,7 @@ def fmtView (st : St) (name : Nat) (r : VReg) : String :=
     match st.arrs[k]! with
     | some b => b.numElements != 0 && b.base == r.blk
     | none => false
-  let tok := match owner with | some k => toString k | none => "-"
+  let tok := if r.v.numElements = 0 then "-" else match owner with | some k => toString k | none => "-"
   s!"view {name} {r.v.lay.length} | {fmtExts r.v.exts} | {r.v.numElements} | {" ".intercalate (cells.map fmtCell)} | in={tok}"
 
 /-- call-syntax argument: `i<k>`, `r<a>_<b>`, `a` -/
@@ -210,6 +210,11 @@ def doOp (st : St) (ws : List String) : Option (St × List String) :=
     let (k, a) ← getArr st d; let (r, _) ← parseView st rest
     let (h1, a') := viewAssign h a r.blk r.v
     pure (setArr (withHeap st h1) k (some a'), ["ok vassign"])
+  | "rassign" :: d :: rest => do
+    let (k, a) ← getArr st d; let (r, _) ← parseView st rest
+    let (h1, a') := rangeAssign h a r.blk r.v
+    let note := s!"note rassign n={a.numElements} vn={r.v.numElements} eqv={rel (Exts.eqv a.exts r.v.exts)}"
+    pure (setArr (withHeap st h1) k (some a'), [note, "ok rassign"])
   | ["convassign", d, s] => do
     let (k, a) ← getArr st d; let (_, b) ← getArr st s
     let (h1, a') := convAssign h a b
